@@ -135,18 +135,25 @@ def is_violation(v):
 
 def annotate_functions(prog, fnames, push_pop, finfo):
     """Monitor annotations (IC10Core.Monitor) for a program compiled with labels kept:
-    ent on function entry labels, cal on jal lines, rv on the 'j ra' of each function."""
-    labs = {i.get("lab"): k for k, i in enumerate(prog) if i["op"] == "label"}
+    ent on function entry labels, cal on jal / b*al lines that call a function, rv on the 'j ra' of each function.
+    The body of a `for` over a constant list is a subroutine of its own (`jal lbfor.bodyN` ... `j ra` just before
+    `lbfor.endN:`): its call and its return are annotated like a function without arguments and without a value."""
     cur = None
     for k, i in enumerate(prog):
         if i["op"] == "label" and i["lab"] in fnames:
             i["ent"] = True
             cur = i["lab"]
-        m = re.match(r"\s*jal\s+(\S+)", i["ln"])
+        m = re.match(r"\s*jal\s+(\S+)", i["ln"]) or re.match(r"\s*b[a-z]+al\s+.*\s(\S+)\s*(#.*)?$", i["ln"])
         if m and m.group(1) in fnames:
             fi = finfo[m.group(1)]
             i["cal"] = {"ar": fi["nargs"], "pp": bool(push_pop)}
-        if i["op"] == "j" and re.match(r"\s*j\s+ra\b", i["ln"]) and cur is not None:
-            fi = finfo[cur]
-            i["rv"] = 1 if (push_pop and fi["returns_value"]) else 0
+        elif m and m.group(1).startswith("lbfor.body"):
+            i["cal"] = {"ar": 0, "pp": False}
+        if i["op"] == "j" and re.match(r"\s*j\s+ra\b", i["ln"]):
+            nxt = prog[k + 1] if k + 1 < len(prog) else None
+            if nxt is not None and nxt["op"] == "label" and nxt.get("lab", "").startswith("lbfor.end"):
+                i["rv"] = 0                      # return of a for-list body
+            elif cur is not None:
+                fi = finfo[cur]
+                i["rv"] = 1 if (push_pop and fi["returns_value"]) else 0
     return prog
